@@ -103,70 +103,74 @@ Proof.
   rewrite ok09_sp_action, E, outcome_eqb_refl. apply andb_true_r.
 Qed.
 
-Lemma step_sim sc s t b o ob s' :
-  Inv s [] b -> Rel s t [] b -> step sc s o ob = Some s' ->
+Lemma step_sim sc s t b o ob fut s' :
+  Inv s [] b -> Rel s t [] b -> step sc s o ob fut = Some s' ->
   okwf (sp_step sc t o ob) = true ->
+  t_abort t = None ->
   exists b', Inv s' [] b' /\ Rel s' (sp_step sc t o ob) [] b' /\
+             t_abort (sp_step sc t o ob) = None /\
              ok08 (sp_step sc t o ob) = ok08 t /\
              (NoLeak s -> NoLeak s' /\ ok09 (sp_step sc t o ob) = ok09 t).
 Proof.
-  intros HI HR Hs Hwf. destruct o as [g|g|g|g|dt]; destruct ob as [r|v|log exc];
+  intros HI HR Hs Hwf Hab. destruct o as [g|g|g|g|dt]; destruct ob as [r|v|log exc];
     cbn [step] in Hs; try discriminate; cbn [sp_step] in *.
   - destruct (do_start s g) as [s1 r'] eqn:Ed.
     destruct (outcome_eqb r r') eqn:Er; [|discriminate]. injection Hs as <-.
     destruct (step_action_sim s t b (AStart g) _ _ _ HI HR Ed Er Hwf) as (b' & ? & ? & ? & ?).
-    exists b'. auto.
+    exists b'. rewrite abort_sp_action. auto.
   - destruct (do_kill s g) as [s1 r'] eqn:Ed.
     destruct (outcome_eqb r r') eqn:Er; [|discriminate]. injection Hs as <-.
     destruct (step_action_sim s t b (AKill g) _ _ _ HI HR Ed Er Hwf) as (b' & ? & ? & ? & ?).
-    exists b'. auto.
+    exists b'. rewrite abort_sp_action. auto.
   - destruct (outcome_eqb r (do_state s g)) eqn:Er; [|discriminate]. injection Hs as <-.
     assert (Ed : do_action s (AState g) = (s, do_state s g)) by reflexivity.
     destruct (step_action_sim s t b (AState g) _ _ _ HI HR Ed Er Hwf) as (b' & ? & ? & ? & ?).
-    exists b'. auto.
+    exists b'. rewrite abort_sp_action. auto.
   - (* value *)
     destruct (oz_eqb v _) eqn:Ev; [|discriminate]. injection Hs as <-.
-    exists b. split; auto. split; [now apply Rel_flag09|]. split; [reflexivity|].
+    exists b. split; auto. split; [now apply Rel_flag09|]. split; [exact Hab|].
+    split; [reflexivity|].
     intros L. split; auto. sproj. rewrite (r_val _ _ _ _ HR), Ev.
     destruct (memz g (t_fin t)); apply andb_true_r.
   - (* process *)
-    unfold process in Hs. destruct (wake s dt log) as [[s1 e1]|] eqn:Ew; [|discriminate].
+    unfold process in Hs. destruct (wake s dt (log ++ fut)) as [[s1 e1]|] eqn:Ew; [|discriminate].
     destruct (wake_sim _ _ _ _ _ _ HI Ew) as (-> & W & HI1 & Hst & HW & Hpc & Hpv & Hdn & HL1 & _).
     destruct (loop sc _ _ log) as [[[s2 log'] e]|] eqn:El; [|discriminate].
     destruct log' as [|? ?]; [|discriminate].
-    destruct (outcome_eqb exc (if e then OKeyError else OOk)) eqn:Ee; [|discriminate].
+    destruct (outcome_eqb exc e) eqn:Ee; [|discriminate].
     injection Hs as <-.
     apply okwf_frame_end in Hwf.
     destruct (tick_rel s t b dt s1 W (0 <=? dt) HR HI1 Hst HW Hpc Hpv Hdn) as [HI2 HR2].
-    destruct (loop_sim sc _ _ _ _ _ _ _ _ HI2 HR2 El Hwf) as (-> & b' & HI3 & HR3 & H08 & HL3).
+    destruct (loop_sim sc _ _ _ _ _ _ _ _ HI2 HR2 eq_refl El Hwf) as (He & b' & HI3 & HR3 & H08 & HL3).
     apply outcome_eqb_eq in Ee. subst exc.
     exists b'. split; auto. split.
     + eapply Rel_ext; [exact HR3|..]; reflexivity.
-    + split.
+    + split; [reflexivity|]. split.
       * unfold frame_end. sproj. rewrite H08.
         destruct (t_due (fold_left (sp_exec sc) log (tick dt (flagwf (0 <=? dt) t)))) as [|x l] eqn:Ed.
         -- unfold tick. sproj. now rewrite !andb_true_r.
         -- exfalso. apply (r_due _ _ _ _ HR3 x). rewrite Ed. now left.
       * intros L. assert (L2 : NoLeak (set_active s1 (rotate1 (active s1)))) by (apply HL1, L).
         destruct (HL3 L2) as [L3 E9]. split; auto.
-        unfold frame_end. sproj. rewrite E9. unfold tick. sproj. cbn [is_ok].
+        unfold frame_end. sproj. rewrite E9. unfold tick. sproj.
+        rewrite He. unfold abort_outcome. sproj. rewrite outcome_eqb_refl.
         now rewrite !andb_true_r.
 Qed.
 
 (* ---- whole traces ------------------------------------------------------------ *)
 Lemma run_sim sc tr : forall s t b s',
   Inv s [] b -> Rel s t [] b -> run sc s tr = Some s' ->
-  okwf (sp_run sc t tr) = true ->
+  okwf (sp_run sc t tr) = true -> t_abort t = None ->
   exists b', Inv s' [] b' /\ Rel s' (sp_run sc t tr) [] b' /\
              ok08 (sp_run sc t tr) = ok08 t /\
              (NoLeak s -> NoLeak s' /\ ok09 (sp_run sc t tr) = ok09 t).
 Proof.
-  induction tr as [|[o ob] tr IH]; intros s t b s' HI HR Hr Hwf.
+  induction tr as [|[o ob] tr IH]; intros s t b s' HI HR Hr Hwf Hab.
   - injection Hr as <-. exists b. cbn [sp_run]. auto.
-  - cbn [run] in Hr. destruct (step sc s o ob) as [s1|] eqn:Es; [|discriminate].
+  - cbn [run] in Hr. destruct (step sc s o ob (future tr)) as [s1|] eqn:Es; [|discriminate].
     cbn [sp_run] in *. pose proof (okwf_sp_run_mono _ _ _ Hwf) as Hwf1.
-    destruct (step_sim _ _ _ _ _ _ _ HI HR Es Hwf1) as (b1 & HI1 & HR1 & H08 & HL1).
-    destruct (IH _ _ _ _ HI1 HR1 Hr Hwf) as (b2 & HI2 & HR2 & H08' & HL2).
+    destruct (step_sim _ _ _ _ _ _ _ _ HI HR Es Hwf1 Hab) as (b1 & HI1 & HR1 & Hab1 & H08 & HL1).
+    destruct (IH _ _ _ _ HI1 HR1 Hr Hwf Hab1) as (b2 & HI2 & HR2 & H08' & HL2).
     exists b2. split; auto. split; auto. split; [congruence|].
     intros L. destruct (HL1 L) as [L1 E1]. destruct (HL2 L1) as [L2 E2].
     split; auto. congruence.
@@ -179,7 +183,7 @@ Proof.
   unfold wf_b, accepts, holds08_b, final. intros Hwf Ha.
   apply andb_true_iff in Hwf. destruct Hwf as [_ Hwf].
   destruct (run (c_scripts c) st0 (c_trace c)) as [s|] eqn:Er; [|discriminate].
-  destruct (run_sim _ _ _ _ _ _ Inv0 Rel0 Er Hwf) as (b & _ & _ & H08 & _).
+  destruct (run_sim _ _ _ _ _ _ Inv0 Rel0 Er Hwf eq_refl) as (b & _ & _ & H08 & _).
   now rewrite H08.
 Qed.
 
@@ -190,6 +194,6 @@ Proof.
   unfold wf_b, accepts, known09_b, final. intros Hwf Hk Ha.
   apply andb_true_iff in Hwf. destruct Hwf as [_ Hwf].
   destruct (run (c_scripts c) st0 (c_trace c)) as [s|] eqn:Er; [|discriminate].
-  destruct (run_sim _ _ _ _ _ _ Inv0 Rel0 Er Hwf) as (b & _ & _ & _ & H09).
+  destruct (run_sim _ _ _ _ _ _ Inv0 Rel0 Er Hwf eq_refl) as (b & _ & _ & _ & H09).
   destruct (H09 NoLeak0) as [_ E]. now rewrite E.
 Qed.
